@@ -42,7 +42,8 @@ def _t1(sel, w, a, b, i, r):
 
 @harness("C01", args="sel: int, w: int, a: int, b: int, i: int, r: int",
          pre=["0 <= sel <= 7", "1 <= w", "0 <= a < b <= w", "-w <= i < w", "1 <= r <= 3"],
-         tiers={"quick": {"timeout": 150, "pre": ["w <= 3", "r == 2 or sel == 0", "i == -1 or i == 0 or sel == 1"], "parts": parts_over("sel", range(8))},
+         tiers={"quick": {"timeout": 170, "pre": ["w <= 3", "r == 2 or sel == 0", "i == -1 or i == 0 or sel == 1"],
+                          "parts": [(f"sel0_r{r}", f"sel == 0 and r == {r}") for r in (1, 2, 3)] + parts_over("sel", range(1, 8))},
                 "thorough": {"timeout": 600, "pre": ["w <= 5"], "parts": [(f"sel{s}_w{w}_a{a}", f"sel == {s} and w == {w} and a == {a}") for s in range(8) for w in range(1, 6) for a in range(w)]}},
          sample=(3, 2, 0, 1, -1, 2),
          bounds="8 expression shapes over two buses; width w<=3 (quick) / <=5 (thorough); all in-range unit-step bounds 0<=a<b<=w, index -w<=i<w; parameter value 1..3",
